@@ -46,13 +46,15 @@ PROGS = [
     "8 | io=accept:1,connected:1 ; main=stop,join ; a=csync:100000,send:1 ; b=connect,close:1",
     "8 | io=accept:1,waitflag:s,data:1:2,data:1:2,data:1:2 ; main=mode:1:sync,setflag:s,stop,join ; a=waitflag:s,recv:1:1:100000,mode:1:async ; b=waitflag:s,listen,send:1",
     # stopped first, a receiver parks AFTERWARDS (polling again after PeerClosed), then the owner destroys the transport
-    "8 | io=accept:1,close:1,setflag:c ; main=mode:1:sync,waitflag:c,stop,setflag:p,destroy ; a=waitflag:p,recv:1:4:100000,recv:1:4:100000",
-    "8 | io=accept:1 ; main=mode:1:sync,stop,setflag:p,destroy ; a=waitflag:p,recv:1:4:100000,recv:1:4:100000 ; b=waitflag:p,csync:100000",
+    # (flag q: the owner does not begin the destruction before the receiver's FIRST call has returned - whichever way it went -,
+    # so that the receiver never begins a call on an object whose destruction is under way: that would be the caller's bug)
+    "8 | io=accept:1,close:1,setflag:c ; main=mode:1:sync,waitflag:c,stop,setflag:p,waitflag:q,destroy ; a=waitflag:p,recv:1:4:100000,setflag:q,recv:1:4:100000",
+    "8 | io=accept:1 ; main=mode:1:sync,stop,setflag:p,waitflag:q,destroy ; a=waitflag:p,recv:1:4:100000,setflag:q,recv:1:4:100000 ; b=waitflag:p,csync:100000",
     # two stoppers
     "8 | io=accept:1 ; main=mode:1:sync,stop,join ; a=recv:1:4:100000 ; b=stop,recv:1:4:10",
     # the sole owner releases the transport inside its own close callback, with and without a parked receiver
     "8 | io=accept:1,waitflag:s,data:1:2,close:1 ; main=mode:1:sync,armreset,setflag:s",
-    "8 | io=accept:1,waitflag:s,close:1 ; main=mode:1:sync,armreset,setflag:s ; a=recv:1:4:100000",
+    "8 | io=accept:1,waitflag:s,close:1 ; main=mode:1:sync,armreset,waitparked:a,setflag:s ; a=recv:1:4:100000",
 ]
 
 
